@@ -32,10 +32,14 @@ def run(ck, tier):
     _curated_first(ck, p)
     _filekey(ck, p)
     from . import c06
-    ck.rule("R-C07-accept", "an added word is accepted as written: the exact-spelling test compares like with like (rule instance of R-C06-exact) and the entry whose dialect the spell checker tests is not an earlier part's (rule instance of R-C06-union dialect)")
+    ck.rule("R-C07-accept", "an added word is accepted as written: the exact-spelling test compares like with like (rule instance of R-C06-exact) and the entry whose dialect the spell checker tests is not an earlier part's (rule instance of R-C06-union dialect); membership in the merged dictionary is the union over all parts, so a spelling held by a later part (the user's) is found even when an earlier part knows the same letters in another capitalisation (rule instances of R-C06-union)")
     sub = c05._Sub(ck, "R-C07-accept", "")
     c06.like_with_like(sub, p, byk, "R-C07-accept")
     c06.dialect_first_wins(sub, p, byk, "R-C07-accept")
+    # the user's spelling sits in a later part of the merged dictionary: it is accepted only if membership is the
+    # union over ALL parts (rule instances of R-C15-merged / R-C06-union)
+    from . import c15
+    c15._merged(sub, p, c15.dictionary_impls(p), rule="R-C07-accept", only=["contains_word", "contains_exact_word"])
 
 
 def _find(f, arm, suffix):
